@@ -200,3 +200,33 @@ func TestWalkFraming(t *testing.T) {
 		t.Fatalf("%v", ly.Labels[20:])
 	}
 }
+
+func TestRSASecretKey(t *testing.T) {
+	// p=11, q=13, n=143, e=7, d=43 (7*43=301=1 mod 60), u = 11^-1 mod 13 = 6
+	mk := func(p, q, u byte) []byte {
+		b := []byte{4, 0, 0, 0, 1, 1, 0, 8, 143, 0, 3, 7, 0}
+		sec := []byte{0, 6, 43, 0, 4, p, 0, 4, q, 0, 3, u}
+		sum := 0
+		for _, x := range sec {
+			sum += int(x)
+		}
+		return append(append(b, sec...), byte(sum>>8), byte(sum))
+	}
+	k, err := ParseRSASecretKey(mk(11, 13, 6))
+	if err != nil || len(k.Check()) != 0 {
+		t.Fatalf("%v %v", err, k.Check())
+	}
+	k, err = ParseRSASecretKey(mk(13, 11, 6)) // swapped primes: u = 13^-1 mod 11 = 6 as well
+	if err != nil || len(k.Check()) != 1 || k.Check()[0] != "p >= q" {
+		t.Fatalf("%v %v", err, k.Check())
+	}
+	k, _ = ParseRSASecretKey(mk(11, 13, 5))
+	if c := k.Check(); len(c) != 1 || c[0] != "u != p^-1 mod q" {
+		t.Fatalf("%v", c)
+	}
+	bad := mk(11, 13, 6)
+	bad[len(bad)-1]++
+	if _, err := ParseRSASecretKey(bad); err == nil {
+		t.Fatal("checksum not checked")
+	}
+}
